@@ -14,8 +14,9 @@ Which item kind runs its body in which scope (as the code has it; `Cfg.sq` flags
   Rule → sub_selectors, AtMedia/AtRule → sub, For → sub per iteration, While → one sub,
   If → same scope, Each → same scope with store/restore of the loop variable,
   function bodies: If/Each/For → same scope, While → sub.
-With the structural flags off (`spec`) the bodies of @if/@each (and of @if/@each/@for
-inside functions) get a flow scope of their own.
+With the structural flags off (`spec`) the bodies of @if (and of @if inside functions) get
+a flow scope of their own and every round of @each (and of @each/@for inside functions)
+runs in a fresh flow scope, as @for does.
 
 Every recursive function consumes `fuel` on each call (structural recursion on `fuel`).
 The output is the list of emitted declarations `(property name, value text)`.
@@ -341,8 +342,9 @@ def execStmt : Nat → Cfg → Bool → Nat → Stmt → St → R (Option V)
           match v with
           | .map _ => .error .unmodelled
           | _ =>
-            let (h, f) := alloc st.heap s (if fn then .fnFlow else .eachLoop) true
-            loopSame fuel cfg fn f x v.items body { st with heap := markLoopVar h f x }
+            -- a flow scope per round, as for `@for` (whether a variable first declared in one
+            -- round is visible in the next is not specified; the ghost marks make it `unspec`)
+            loopFresh fuel cfg fn s (if fn then .fnFlow else .eachLoop) x v.items body st
     | .forS x a b incl body =>
       match evalExpr fuel cfg s a st with
       | .error e => .error e
